@@ -621,9 +621,14 @@ func runLifecycleScenario(sc *lcScenario, emitEv func(M)) {
 	waitPullNotif := func() {
 		waitFor(3*time.Second, func() bool { return countNotif("pull_start")+countNotif("pull_stop") > 0 })
 	}
+	// deviated: an attempt the model expects did not come within the bound.  The step is reported with the attempts that
+	// were counted (TLC refuses it); the time spent waiting for it is not a stall of the machine
+	deviated := false
 	waitAttempts := func(st *lcStep) {
 		if st.ExpAttempts > origin.count() {
-			waitFor(3*time.Second, func() bool { return origin.count() >= st.ExpAttempts })
+			if !waitFor(3*time.Second, func() bool { return origin.count() >= st.ExpAttempts }) {
+				deviated = true
+			}
 		}
 	}
 	autoMs := sc.Cfg.PullAutoMs
@@ -638,7 +643,7 @@ func runLifecycleScenario(sc *lcScenario, emitEv func(M)) {
 		pullTimeoutMs = 10000 // lal's default: these scenarios leave the field out of the API request (lcApi.omitDef)
 	}
 	for i, st := range sc.Steps {
-		if st.Name != "Advance" && autoMs > 0 && time.Since(lastStep) > time.Duration(autoMs)*time.Millisecond*4/10 {
+		if !deviated && st.Name != "Advance" && autoMs > 0 && time.Since(lastStep) > time.Duration(autoMs)*time.Millisecond*4/10 {
 			inconclusive = true // the machine stalled: elapsed time no longer matches the abstract clock
 		}
 		lastStep = time.Now()
@@ -1142,7 +1147,7 @@ func runLifecycleScenario(sc *lcScenario, emitEv func(M)) {
 			}
 			waitAttempts(&st)
 			emit("StartPull", "", ret)
-		case "StopPull", "KickPull":
+		case "StopPull", "KickPull", "KickStale":
 			ret := "ok"
 			var code int
 			if st.Name == "StopPull" {
@@ -1153,7 +1158,7 @@ func runLifecycleScenario(sc *lcScenario, emitEv func(M)) {
 					key = base.UkPreRtspPullSession + "999999"
 				}
 				if g := sm.GetGroup("", stream); g != nil {
-					if sp := sm.StatGroup(stream); sp != nil && sp.StatPull.SessionId != "" {
+					if sp := sm.StatGroup(stream); st.Name == "KickPull" && sp != nil && sp.StatPull.SessionId != "" {
 						key = sp.StatPull.SessionId
 					}
 				}
